@@ -7,6 +7,7 @@ package c18
 
 import (
 	"github.com/obolnetwork/charon/core/fetcher"
+	"math/big"
 	"sync"
 
 	"crypto/sha256"
@@ -139,6 +140,13 @@ func runDutyDB(t *testing.T, rt *rapid.T, k valgen.Kind, seed int64) (bool, stri
 	ctx, cancel := context.WithTimeout(context.Background(), 5*time.Second)
 	defer cancel()
 	v := valgen.Unsigned(t, k, seed)
+	if p, ok := v.(core.VersionedProposal); ok {
+		// block values as a produce-block-v3 answer carries them (mutable *big.Int objects that are not part
+		// of the SSZ encoding)
+		p.ConsensusValue = big.NewInt(1000 + seed%1000)
+		p.ExecutionValue = big.NewInt(2000 + seed%1000)
+		v = p
+	}
 	db := dutydb.NewMemDB(fakes.NewDeadliner())
 	var await func() (any, error)
 	var slot uint64
